@@ -145,14 +145,34 @@ def observe_expand(typ, kind, key, u, g):
     return None
 
 
-def call_config(typ, syn, form):
+def call_config(typ, syn, form, extra=None):
     """the call's own config in one of its equivalent spellings: explicit type + syntax; syntax omitted (effective syntax = the
     type's default); type and syntax omitted (markup / html)"""
     if form == 'nosyntax':
-        return {'type': typ}
-    if form == 'bare':
-        return {}
-    return {'type': typ, 'syntax': syn}
+        u = {'type': typ}
+    elif form == 'bare':
+        u = {}
+    else:
+        u = {'type': typ, 'syntax': syn}
+    # the other documented top-level keys of a call's config ride along on most calls (no key of them is a layer, none may be added, rewritten
+    # or re-spelled in the caller's dictionary): the repeat limit in both spellings, a markup context
+    if extra is not None:        # replay: the keys the recorded case had
+        u.update(copy.deepcopy(extra))
+        return u
+    CALL_CONFIGS[0] += 1
+    k = CALL_CONFIGS[0] % 5
+    if k == 1:
+        u['maxRepeat'] = 7
+    elif k == 2:
+        u['max_repeat'] = 5
+    elif k == 3 and typ == 'markup':
+        u['context'] = {'name': 'x-ctx', 'attributes': {'k': 'v'}}
+    elif k == 4:
+        u['maxRepeat'] = None
+    return u
+
+
+CALL_CONFIGS = [0]
 
 
 def forms_for(typ, syn):
@@ -184,7 +204,7 @@ def alias_check(ctx, C, cfg, u, g, case):
                 return
 
 
-def run_combo(ctx, C, typ, syn, kind, key, vals, subset, orig_sc, can_patch, form='explicit'):
+def run_combo(ctx, C, typ, syn, kind, key, vals, subset, orig_sc, can_patch, form='explicit', extra=None):
     from emmet.config import Config
     L1, L2, L3, L4, L5 = subset
     sc = copy.deepcopy(orig_sc)
@@ -201,11 +221,12 @@ def run_combo(ctx, C, typ, syn, kind, key, vals, subset, orig_sc, can_patch, for
         g[typ] = {kind: {key: vals[2]}}
     if L4:
         g.setdefault(syn, {})[kind] = {key: vals[3]}
-    u = call_config(typ, syn, form)
+    u = call_config(typ, syn, form, extra)
+    call_extra = {k: copy.deepcopy(v) for k, v in u.items() if k in ('maxRepeat', 'max_repeat', 'context')}
     if L5:
         u[kind] = {key: vals[4]}
     u0, g0 = caller_digest(u), digest(g)
-    case = {'type': typ, 'syntax': syn, 'kind': kind, 'key': key, 'subset': list(subset), 'form': form}
+    case = {'type': typ, 'syntax': syn, 'kind': kind, 'key': key, 'subset': list(subset), 'form': form, 'call_extra': call_extra}
     exp = expected_value(C, orig_sc, typ, syn, kind, key, subset, vals)
     if can_patch:
         C.SYNTAX_CONFIG = sc
@@ -479,7 +500,7 @@ def replay(case, ctx):
     vals = [v for k, kk, v in KEYS[case['type']] if (k, kk) == (case['kind'], case['key'])][0]
     base = digest(builtin_tables())
     run_combo(ctx, C, case['type'], case['syntax'], case['kind'], case['key'], vals, tuple(case['subset']),
-              C.SYNTAX_CONFIG, True, case.get('form', 'explicit'))
+              C.SYNTAX_CONFIG, True, case.get('form', 'explicit'), case.get('call_extra'))
     if digest(builtin_tables()) != base:
         ctx.violation('builtin-table-mutated', case, {})
 
